@@ -18,7 +18,7 @@ def run(tier, seed, prop='C04'):
                            'one 7-node graph with an isolated node, 3 (tmin, tmax) combinations, weighted / unweighted, rate 0, fixed delays tying with tmax, 4 seeds, every simulator incl. the discrete and generic ones'))
     r = util.native_replayer
     rep.not_covered += [
-        'fast_nonMarkov_SIS, Gillespie_simple_contagion, Gillespie_complex_contagion, basic_discrete_SIS: row invariant not under contract (only the bounded native stand-in); discrete_SIR: see C12; Gillespie_complex_contagion: see C15',
+        'fast_nonMarkov_SIS, Gillespie_simple_contagion: row invariant not under contract (only the bounded native stand-in); discrete_SIR and basic_discrete_SIS: row invariants under contract in C12; Gillespie_complex_contagion: see C15',
         'fast_nonMarkov_SIR: "unbounded horizon ends with no infected node" needs "every infectious node has a pending recovery", which is not part of the proved global invariant',
         'termination',
     ]
